@@ -205,11 +205,32 @@ def correspondence(ctx):
         if tuple(r[:6]) != tuple(mm[:6]):
             dis.append({"cfg": repr(c), "ops": repr(ops)[:300], "script": repr(sc), "choices": repr(ch)[:80], "impl": repr((r[0], r[2], r[5]))[:300],
                         "model": repr((mm[0], mm[2], mm[5]) if len(mm) > 5 else mm)[:300]})
-    return {"evaluations": len(cl), "distinct_nontrivial": sum(1 for x in cl if x[2] or x[3]),
+    # random sequences over EVERY operation of the model (incl. stats, raw_command, quit, close, cache_memlimit, shutdown), random
+    # configurations and argument values (noreply None/True/False, bad integers), naive-server replies with injected error lines,
+    # faults and segmentations
+    from harness import gens
+    rng = random.Random(ctx.seed * 131 + 1)
+    rcl = []
+    for i in range(300 if ctx.quick else 4000):
+        c = gens.random_cfg(rng)
+        ops = [gens.random_op(rng) for _ in range(rng.randrange(2, 7))]
+        if c["serde"] == 1:
+            ops = gens.native_only(ops)
+        sc, ch, rep = gens.build_case(rng, c, ops, fault_rate=0.0 if i % 3 else 0.08)
+        rcl.append((c, ops, sc, ch, rep))
+    rm = ctx.driver.call_many([cs.model_req(c, ops, sc, ch, rep, hk) for c, ops, sc, ch, rep in rcl])
+    for (c, ops, sc, ch, rep), m in zip(rcl, rm):
+        r = cs.run_impl(c, ops, sc, ch, rep)
+        mm = cs.decode_model(m)
+        if tuple(r[:6]) != tuple(mm[:6]):
+            dis.append({"random": True, "cfg": repr(c), "ops": repr(ops)[:300], "script": repr(sc)[:100], "choices": repr(ch)[:80], "impl": repr((r[0], r[2], r[5]))[:300],
+                        "model": repr((mm[0], mm[2], mm[5]) if len(mm) > 5 else mm)[:300]})
+    return {"evaluations": len(cl) + len(rcl), "distinct_nontrivial": sum(1 for x in cl if x[2] or x[3]) + len(rcl),
             "rule": "extracted Client model vs the real Client on %d histories: 3 preparing sets, one of 26 operations (single/multi-key, noreply "
                     "on/off), two follow-up calls; timeout/reset at every non-recv socket call 0..7 and at the first three recvs of the operation, "
                     "end of stream at recv 0..2, three segmentations; replies from the reference server. Compared: results, full socket traces, final "
-                    "socket, unread bytes" % len(cl),
+                    "socket, unread bytes; plus %d random sequences of 2-6 operations over all 22 operations of the model with random "
+                    "configurations, argument values, error lines, faults and segmentations" % (len(cl), len(rcl)),
             "samples": [{"cfg": repr(c), "ops": repr(o[3:])[:120], "script": repr(s), "choices": repr(h)[:40]} for c, o, s, h, k, r in cl[10:13]],
             "distribution": {"cases": len(cl), "with_fault": sum(1 for x in cl if x[2] or x[3])}, "disagreements": dis}
 
